@@ -8,13 +8,18 @@ run_roundtrip   : {xml, nt, json-ld, turtle, n3} x {string, file, odml.save/odml
 run_writer_history : usage histories of the export side.  Every public export entry point of RDFWriter
                   (convert_to_rdf, str(), __unicode__(), get_rdf_str(fmt), write_file(path, fmt)) called 1..3 times in
                   every order on ONE instance and on fresh instances over the same document objects, optionally with
-                  the documents edited between two calls; one ODMLWriter('RDF') instance used for several documents.
+                  the documents edited between two calls (composite edit + one of DOC_EDITS, rotating); one
+                  ODMLWriter('RDF') instance used for several documents.
                   Every produced graph / text / file is judged on its own with the graph-shape predicate and the
                   import comparison: what an export yields must not depend on what the instance did before.
 run_reader_history : usage histories of the import side.  One RDFReader (from_string, from_file, to_odml, constructor
-                  with file) and one ODMLReader('RDF') (from_string, from_file) used 1..3 times in every order on
-                  texts/files of two different document sets: every call returns exactly the documents of the graph
-                  it was given.
+                  with file), one ODMLReader('RDF') (from_string, from_file) and a new RDFReader per call used 1..3
+                  times in every order (1) on texts/files of two different document sets, (2) on texts/files of
+                  VERSIONS of the same documents: exported, edited in place through the public API with all ids kept
+                  (DOC_EDITS / LIST_EDITS: every attribute, values, added / removed / moved / renamed / replaced
+                  Properties and Sections, other list of documents), exported again - graphs that use the same node
+                  names for different content; optionally the caller edits the documents he got between two calls.
+                  Every call returns exactly the documents of the graph it was given.
 
 The oracle never uses odml.format / the writer's tables: namespace, predicate names and the sub-class map
 (read from the yaml resource, which is data) are spelled out here.
@@ -760,6 +765,256 @@ def _edit(docs, k):
         odml.Property(name='added%d' % k, values=[k, k + 1], parent=s)
 
 
+# ---- edits of documents that have been exported before ---------------------------------------
+#
+# A graph names every object by its id, and ids survive every edit made through the public API.  Documents that
+# are exported, edited and exported again therefore give graphs that use the SAME node names for DIFFERENT content
+# (or for content at another place).  Each kind below changes one aspect of the documents in place; the kinds
+# together cover every attribute the statement lists, the value sequences, and every structural change that
+# keeps ids (add / remove / move / rename / replace by an equal object with a new id).  The list kinds change
+# which documents are exported together.
+
+def _fresh_name(base, taken):
+    name = base
+    while name in taken:
+        name += 'x'
+    return name
+
+
+def _names(children):
+    return set(c.name for c in children)
+
+
+def _plain_props(doc):
+    return [p for p in h.walk(doc)[1] if not (p.dtype or '').endswith('-tuple')]
+
+
+SEC_TYPES = ('recording', 't', 'setup/daq', 'x/y', 'hardware/daq')
+
+
+def _e_none(docs, k):
+    pass
+
+
+def _e_doc_attributes(docs, k):
+    for d in docs:
+        d.author = '%s ed%d' % (d.author or 'nobody', k)
+        d.version = None if d.version else 'v%d' % k
+        d.date = dt.date(2001, 1 + k % 12, 1 + k % 28)
+
+
+def _e_section_attributes(docs, k):
+    for d in docs:
+        for j, s in enumerate(h.walk(d)[0]):
+            s.definition = None if (s.definition and j % 2) else 'sec def ed%d "q" é' % k
+            s.reference = None if s.reference else 'sec ref %d' % k
+            cand = [t for t in SEC_TYPES if t != s.type]
+            s.type = cand[(j + k) % len(cand)]
+
+
+def _e_section_renamed(docs, k):
+    for d in docs:
+        for s in h.walk(d)[0]:
+            s.name = _fresh_name('%s_r%d' % (s.name, k), _names(s.parent.sections))
+
+
+def _e_property_attributes(docs, k):
+    for d in docs:
+        for j, p in enumerate(h.walk(d)[1]):
+            p.unit = None if p.unit else 'kHz'
+            p.uncertainty = None if p.uncertainty is not None else 0.25 * k
+            p.definition = None if (p.definition and j % 2) else 'prop def ed%d' % k
+            p.reference = None if p.reference else 'pref%d' % k
+            p.value_origin = None if p.value_origin else 'origin%d.dat' % k
+
+
+def _e_property_renamed(docs, k):
+    for d in docs:
+        for p in h.walk(d)[1]:
+            p.name = _fresh_name('%s_r%d' % (p.name, k), _names(p.parent.properties))
+
+
+def _e_values_changed(docs, k):
+    """other values, other number of values, other order"""
+    for d in docs:
+        for p in _plain_props(d):
+            vals = list(p.values)
+            if vals:
+                p.values = vals[::-1] + [vals[0]]
+
+
+def _e_values_shortened(docs, k):
+    for d in docs:
+        for p in _plain_props(d):
+            vals = list(p.values)
+            if len(vals) > 1:
+                p.values = vals[1:]
+
+
+def _e_values_emptied_or_filled(docs, k):
+    for d in docs:
+        for p in _plain_props(d):
+            if list(p.values):
+                p.values = []
+            elif p.dtype in h.VALUE_POOL:
+                p.values = list(h.VALUE_POOL[p.dtype][-1])
+            else:
+                p.values = ['filled %d' % k]
+
+
+def _e_property_added(docs, k):
+    for d in docs:
+        for s in h.walk(d)[0]:
+            odml.Property(name=_fresh_name('added%d' % k, _names(s.properties)), values=[k, k + 1], parent=s)
+            first = odml.Property(name=_fresh_name('first%d' % k, _names(s.properties)), dtype='string',
+                                  values=['x%d' % k, 'y'])
+            s.insert(0, first)
+
+
+def _e_property_removed(docs, k):
+    for d in docs:
+        for s in h.walk(d)[0]:
+            props = list(s.properties)
+            if props:
+                s.remove(props[(k - 1) % len(props)])
+
+
+def _e_section_added(docs, k):
+    for d in docs:
+        for parent in [d] + h.walk(d)[0]:
+            new = odml.Section(name=_fresh_name('addedsec%d' % k, _names(parent.sections)), type='t', parent=parent)
+            odml.Property(name='in-added', values=[k], parent=new)
+
+
+def _e_section_removed(docs, k):
+    """one Section with everything below it: a sub-Section if there is one, else the last top level Section"""
+    for d in docs:
+        secs = h.walk(d)[0]
+        inner = [s for s in secs if s.parent is not d]
+        target = inner[0] if inner else (secs[-1] if secs else None)
+        if target is not None:
+            target.parent.remove(target)
+
+
+def _e_property_moved(docs, k):
+    for d in docs:
+        secs, props = h.walk(d)
+        for p in props:
+            dest = [t for t in secs if t is not p.parent and p.name not in _names(t.properties)]
+            if dest:
+                p.parent.remove(p)
+                dest[0].append(p)
+                break
+
+
+def _e_section_moved(docs, k):
+    """a sub-Section becomes a top level Section; without sub-Sections the last top level Section moves below
+    the first one"""
+    for d in docs:
+        secs = h.walk(d)[0]
+        inner = [s for s in secs if s.parent is not d and s.name not in _names(d.sections)]
+        tops = list(d.sections)
+        if inner:
+            inner[0].parent.remove(inner[0])
+            d.append(inner[0])
+        elif len(tops) > 1 and tops[-1].name not in _names(tops[0].sections):
+            d.remove(tops[-1])
+            tops[0].append(tops[-1])
+
+
+def _swap_names(a, b):
+    na, nb = a.name, b.name
+    a.name = na + nb + '-tmp'
+    b.name = na
+    a.name = nb
+
+
+def _e_names_swapped(docs, k):
+    """two siblings exchange their names: every name is still there, but belongs to another id"""
+    for d in docs:
+        for parent in [d] + h.walk(d)[0]:
+            subs = list(parent.sections)
+            if len(subs) > 1:
+                _swap_names(subs[0], subs[1])
+            if parent is not d:
+                props = list(parent.properties)
+                if len(props) > 1:
+                    _swap_names(props[0], props[-1])
+
+
+def _e_replaced_by_equal_with_new_id(docs, k):
+    """objects removed and objects of equal content but new ids put in their place"""
+    for d in docs:
+        secs = h.walk(d)[0]
+        inner = [s for s in secs if s.parent is not d]
+        if inner:
+            par = inner[0].parent
+            twin = inner[0].clone()
+            par.remove(inner[0])
+            par.append(twin)
+        for s in h.walk(d)[0]:
+            props = list(s.properties)
+            if props:
+                twin = props[0].clone()
+                s.remove(props[0])
+                s.append(twin)
+
+
+def _e_composite(docs, k):
+    _edit(docs, k)
+
+
+def _e_section_moved_across_documents(docs, k):
+    if len(docs) > 1:
+        tops = list(docs[0].sections)
+        if tops and tops[0].name not in _names(docs[1].sections):
+            docs[0].remove(tops[0])
+            docs[1].append(tops[0])
+
+
+def _e_document_dropped(docs, k):
+    if len(docs) > 1:
+        docs.pop(0)
+
+
+def _e_document_added(docs, k):
+    twin = docs[0].clone()
+    twin.author = 'added document %d' % k
+    docs.append(twin)
+
+
+def _e_documents_reordered_one_edited(docs, k):
+    docs.reverse()
+    docs[0].author = 'now first %d' % k
+
+
+# edits of the documents themselves: usable wherever the same document objects are exported again
+DOC_EDITS = (
+    ('none', _e_none), ('composite', _e_composite),
+    ('document-attributes', _e_doc_attributes), ('section-attributes', _e_section_attributes),
+    ('section-renamed', _e_section_renamed), ('property-attributes', _e_property_attributes),
+    ('property-renamed', _e_property_renamed), ('values-changed', _e_values_changed),
+    ('values-shortened', _e_values_shortened), ('values-emptied-or-filled', _e_values_emptied_or_filled),
+    ('property-added', _e_property_added), ('property-removed', _e_property_removed),
+    ('section-added', _e_section_added), ('section-removed', _e_section_removed),
+    ('property-moved', _e_property_moved), ('section-moved', _e_section_moved),
+    ('names-swapped', _e_names_swapped), ('replaced-by-equal-with-new-id', _e_replaced_by_equal_with_new_id),
+    ('section-moved-across-documents', _e_section_moved_across_documents),
+)
+# edits of the list of documents that is exported
+LIST_EDITS = (
+    ('document-dropped', _e_document_dropped), ('document-added', _e_document_added),
+    ('documents-reordered-one-edited', _e_documents_reordered_one_edited),
+)
+EDITS = dict(DOC_EDITS + LIST_EDITS)
+
+
+def apply_edit(docs, kind, k):
+    """Apply one edit kind through the public API.  An edit the library refuses leaves documents that are still
+    documents; whatever state results is what the next export has to describe."""
+    return h.call(EDITS[kind], docs, k)
+
+
 def _kind_histories(maxlen, with_edit):
     """All sequences of 1..maxlen steps over the entry point kinds (and 'edit'), ending with an export and
     without two edits in a row."""
@@ -835,7 +1090,8 @@ def _usage(instance, nth, edited):
     return 'repeated-export-same-writer' if instance == 'same' else 'later-export-new-writer'
 
 
-def _writer_history(lim, label, base_docs, hist, instance, modeinfo, tier, seed, tag):
+def _writer_history(lim, label, base_docs, hist, instance, modeinfo, tier, seed, tag, extra_edit=None):
+    """extra_edit: an edit kind of DOC_EDITS applied at every 'edit' step in addition to the composite _edit"""
     mode, kw, smap = modeinfo
     has_edit = ('edit',) in hist
     if has_edit:
@@ -844,7 +1100,7 @@ def _writer_history(lim, label, base_docs, hist, instance, modeinfo, tier, seed,
     else:
         docs = list(base_docs)
     wit = {'docs': label, 'history': [list(op) for op in hist], 'instance': instance, 'mode': mode,
-           'tier': tier, 'seed': seed}
+           'edit': ['composite', extra_edit] if has_edit else None, 'tier': tier, 'seed': seed}
     ctor = {d._id: flat(d) for d in docs}
     st, writer = h.call(lambda: RDFWriter(list(docs), **kw))
     if st == 'exc':
@@ -859,6 +1115,8 @@ def _writer_history(lim, label, base_docs, hist, instance, modeinfo, tier, seed,
         if kind == 'edit':
             edits += 1
             _edit(docs, edits)
+            if extra_edit:
+                apply_edit(docs, extra_edit, edits)
             continue
         if instance == 'fresh' and exports > 0:
             st, writer = h.call(lambda: RDFWriter(list(docs), **kw))
@@ -993,11 +1251,17 @@ def _wrapper_writer_history(lim, docs2, hist, tier, seed, tag):
             fail(clause, feature, detail)
 
 
+# edit kinds added to the composite edit of the writer histories, rotating ('none': the composite edit alone)
+WRITER_EDITS = tuple(k for k, _f in DOC_EDITS if k != 'composite')
+
+
 def run_writer_history(tier, seed):
     col = h.Collector('C10.writer_history',
                       rule='histories of 1..3 calls of the export entry points {convert_to_rdf, str, get_rdf_str(fmt), '
                            'write_file(fmt)} (+ "documents edited" between calls) in every order on one RDFWriter and '
-                           'on a new RDFWriter per call over the same document objects, serialisations rotating; '
+                           'on a new RDFWriter per call over the same document objects, serialisations rotating; an edit is the '
+                           'composite edit plus one of 17 single-aspect edits (attributes, values, add/remove/move/rename/'
+                           'replace of Properties and Sections), rotating; '
                            'the full alphabet of 13 entry point x serialisation pairs (incl. __unicode__) in every '
                            'order up to length 2 (1 document set quick, 8 thorough) / 3 (thorough, one set); histories '
                            'of one ODMLWriter("RDF") over two documents; x 6 (quick) / 16 document sets, sub-classing mode '
@@ -1027,7 +1291,8 @@ def run_writer_history(tier, seed):
                 n += 1
                 hist = _with_formats(seq, n)
                 col.case(cls_key=(instance, seq) + feats, sample='%s/%s/%s' % (label, instance, '>'.join(seq)))
-                _writer_history(lim, label, docs, hist, instance, modes[(k + n) % 3], tier, seed, 'k%d' % n)
+                _writer_history(lim, label, docs, hist, instance, modes[(k + n) % 3], tier, seed, 'k%d' % n,
+                                extra_edit=WRITER_EDITS[(n // 3) % len(WRITER_EDITS)])
             # full alphabet: every entry point x serialisation after every other one
             if light or k >= (1 if quick else 8):
                 continue
@@ -1058,12 +1323,64 @@ def run_writer_history(tier, seed):
 
 # ---------------------------------------------------------------------------------------------
 
-def _reader_history(lim, reader_kind, sources, init, hist, tier, seed):
-    """sources: {name: {'label', 'snaps', 'text': {fmt: str}, 'file': {fmt: path}}};  init: None or (name, fmt)"""
+
+def _merged(snaps):
+    """{object id: (kind, parent id, fields)} over all documents of a {document id: flat} dict"""
+    out = {}
+    for f in snaps.values():
+        out.update(f)
+    return out
+
+
+def _same_object(a, b, fmt):
+    """two entries of flat() describe the same state, as far as compare() judges"""
+    if a is None or b is None:
+        return a is b
+    return not any(not f.startswith('dependency:') for _c, f, _d in compare({0: a}, {0: b}, fmt))
+
+
+def _explained_by_earlier(back, cur, earlier, fmt):
+    """The import returned wrong documents - is every object it got wrong exactly in the state a graph read
+    EARLIER in the same history had for that id (attributes, values and parent; absent because the earlier graph
+    did not have it below that parent; present a second time at the place it had in the earlier graph)?  Then it
+    is one violation, "the import returns content of another graph", whatever attribute happens to differ."""
+    lst = back if isinstance(back, list) else [back]
+    got = _merged({b._id: flat(b) for b in lst})          # an id met twice is listed as id' by flat()
+    want = _merged(cur)
+    olds = [_merged(e) for e in earlier]
+    if not olds:
+        return False
+    wrong = [oid for oid in set(want) | set(got) if not _same_object(want.get(oid), got.get(oid), fmt)]
+
+    def explained(oid):
+        base = oid.rstrip("'")
+        g = got.get(oid)
+        if g is not None:
+            if base != oid:
+                # second occurrence of an id: right if it is the object of this graph or of an earlier one
+                g = (g[0], g[1].rstrip("'") if g[1] else g[1], g[2])
+                if _same_object(want.get(base), g, fmt):
+                    return True
+            # the earlier graph may have been read from turtle / n3 text (floats in shorthand): tolerant comparison
+            return any(_same_object(o.get(base), g, 'turtle') for o in olds)
+        # absent: an earlier graph did not have it at this place, or the object it hangs below is absent itself
+        parent = want[oid][1]
+        if any(base not in o or o[base][1] != parent for o in olds):
+            return True
+        return parent is not None and parent in want and parent not in got and explained(parent)
+
+    return bool(wrong) and all(explained(oid) for oid in wrong)
+
+
+def _reader_history(lim, reader_kind, sources, init, hist, tier, seed, touch=False):
+    """sources: {name: {'label', 'snaps', 'text': {fmt: str}, 'file': {fmt: path}}};  init: None or (name, fmt).
+    reader_kind: 'RDFReader' / 'ODMLReader' (one instance for the whole history) or 'RDFReader-per-call' (a new
+    RDFReader for every step).  touch: the caller edits the documents a call returned before the next call."""
     from odml.tools.odmlparser import ODMLReader as OReader
+    per_call = reader_kind == 'RDFReader-per-call'
     wit = {'reader': reader_kind, 'constructed-with': list(init) if init else None,
            'history': [list(op) for op in hist], 'sources': {k: v['label'] for k, v in sources.items()},
-           'tier': tier, 'seed': seed}
+           'caller-edits-returned-documents': touch, 'tier': tier, 'seed': seed}
     if reader_kind == 'ODMLReader':
         st, reader = h.call(OReader, 'RDF')
     elif init:
@@ -1076,15 +1393,26 @@ def _reader_history(lim, reader_kind, sources, init, hist, tier, seed):
                  cls={'clause': 'import-does-not-raise', 'feature': type(reader).__name__, 'usage': 'constructor'},
                  witness=wit, detail='constructor raised %r' % (reader,))
         return
+    read_before = [init[0]] if init else []          # names of the graphs given to the reader(s) so far
     for i, op in enumerate(hist):
         kind = op[0]
-        usage = 'first-import' if i == 0 else 'repeated-import-same-%s' % reader_kind
+        if i == 0:
+            usage = 'first-import'
+        elif per_call:
+            usage = 'later-import-new-RDFReader'
+        else:
+            usage = 'repeated-import-same-%s' % reader_kind
 
         def fail(clause, feature, detail):
             lim.fail(check='C10.reader_history/%s' % clause,
                      cls={'clause': clause, 'feature': feature, 'usage': usage},
                      witness=dict(wit, step=i), detail='step %d %r: %s' % (i, op, detail))
 
+        if per_call and i > 0:
+            st, reader = h.call(RDFReader)
+            if st == 'exc':
+                fail('import-does-not-raise', type(reader).__name__, 'constructor raised %r' % (reader,))
+                return
         if kind == 'to_odml':
             st, back = h.call(reader.to_odml)
         else:
@@ -1094,51 +1422,130 @@ def _reader_history(lim, reader_kind, sources, init, hist, tier, seed):
                 st, back = h.call(reader.from_string, src['text'][op[2]], op[2])
             else:
                 st, back = h.call(reader.from_file, src['file'][op[2]], op[2])
+        earlier = [sources[name]['snaps'] for name in read_before]
+        if loaded[0] not in read_before:
+            read_before.append(loaded[0])
         if st == 'exc':
             fail('import-does-not-raise', type(back).__name__, 'raised %r' % (back,))
             continue
         # judge now: the list handed out may be the reader's own, changed by the next call
-        for clause, feature, detail in _judge_import(back, sources[loaded[0]]['snaps'], None, loaded[1]):
-            fail(clause, feature, detail)
+        cur = sources[loaded[0]]['snaps']
+        problems = _judge_import(back, cur, None, loaded[1])
+        if problems and earlier and not any(c == 'one-document-per-document' for c, _f, _d in problems) \
+                and _explained_by_earlier(back, cur, earlier, loaded[1]):
+            fail('returns-the-documents-of-its-graph', 'content-of-a-graph-read-earlier-under-the-same-ids',
+                 '%d difference(s), each of them the state of an earlier graph, e.g. %s' % (
+                     len(problems), problems[0][2]))
+        else:
+            for clause, feature, detail in problems:
+                fail(clause, feature, detail)
+        if touch:
+            # the documents handed out are the caller's: what he does with them is no business of the next import
+            lst = [b for b in (back if isinstance(back, list) else [back]) if isinstance(b, odml.doc.BaseDocument)]
+            if lst:
+                h.call(_edit, lst, i + 1)
+                h.call(apply_edit, lst, 'values-changed', i + 1)
+
+
+def _export_source(label, docs, tag, kw=None, own_serialisation=False):
+    """Texts and files of all serialisations of the graph of `docs`; None if an export fails (export failures
+    are judged by the other parts).  Default: a new writer and get_rdf_str per serialisation.
+    own_serialisation: ONE new writer, ONE convert_to_rdf, the graph written in every serialisation by rdflib
+    here (any text of the graph is a legitimate input of the import; creating a writer is expensive)."""
+    src = {'label': label, 'snaps': {d._id: flat(d) for d in docs}, 'text': {}, 'file': {}}
+    graph = None
+    if own_serialisation:
+        st, graph = h.call(lambda: RDFWriter(list(docs), **(kw or {})).convert_to_rdf())
+        if st == 'exc' or not isinstance(graph, Graph):
+            return None
+    for fmt in FORMATS:
+        if graph is not None:
+            st, text = h.call(lambda: graph.serialize(format=fmt))
+            if st == 'ret' and isinstance(text, bytes):
+                text = text.decode('utf-8')
+        else:
+            st, text = h.call(lambda: RDFWriter(list(docs), **(kw or {})).get_rdf_str(fmt))
+        if st == 'exc' or not isinstance(text, str):
+            return None
+        src['text'][fmt] = text
+        path = os.path.join(RHIST_DIR, '%s%s' % (tag, EXT[fmt]))
+        with open(path, 'w', encoding='utf-8') as f:
+            f.write(text)
+        src['file'][fmt] = path
+    return src
+
+
+def _version_sources(label, base_docs, kinds, tag, kw):
+    """The same documents exported, edited in place (ids kept), exported again, ...: [source v0, source v1, ...]
+    or None (export failed / first edit does not apply to these documents)."""
+    with h.quiet():
+        docs = [d.clone() for d in base_docs]
+    out = [_export_source('%s@v0' % label, docs, '%s_0' % tag, kw, True)]
+    for j, kind in enumerate(kinds, 1):
+        apply_edit(docs, kind, j)
+        out.append(_export_source('%s@v%d[%s]' % (label, j, kind), docs, '%s_%d' % (tag, j), kw, True))
+        if out[-1] is not None and j == 1 and kind != 'none' and out[0] is not None \
+                and out[0]['snaps'] == out[1]['snaps']:
+            return None
+    return None if any(s is None for s in out) else out
+
+
+def _touching(seq, init):
+    return set(op[1] for op in seq if len(op) > 1 and op[1] != 'U') | ({init} if init else set())
+
+
+def _version_seqs(vnames, with_to_odml, lengths, init, entries=True):
+    """Call sequences over (versions + unrelated source 'U') (+ to_odml) that give the reader at least two
+    different versions of the same documents.  entries=True: x {from_string, from_file} for every load;
+    entries=False: loads are ('load', name), the entry point is chosen by rotation when the history runs."""
+    kinds = ('from_string', 'from_file') if entries else ('load',)
+    alphabet = [(kind, name) for kind in kinds for name in list(vnames) + ['U']]
+    if with_to_odml:
+        alphabet.append(('to_odml',))
+    for m in lengths:
+        for seq in itertools.product(alphabet, repeat=m):
+            if init is None and seq[0] == ('to_odml',):
+                continue                # precondition of to_odml: a graph has been read
+            if len(_touching(seq, init)) >= 2:
+                yield seq
 
 
 def run_reader_history(tier, seed):
     col = h.Collector('C10.reader_history',
-                      rule='histories of 1..3 imports in every order on one RDFReader (created empty or with a file; '
-                           'from_string / from_file of source A or B, to_odml of the graph it holds) and on one '
+                      rule='(1) histories of 1..3 imports in every order on one RDFReader (created empty or with a '
+                           'file; from_string / from_file of source A or B, to_odml of the graph it holds) and on one '
                            'ODMLReader("RDF") (from_string / from_file of A or B); A, B = texts and files exported by '
-                           'new writers from two different document sets (1 pair quick, 4 pairs thorough), '
-                           'serialisations rotating; every call must return exactly the documents of the graph it '
-                           'read; class = (reader, start, calls in order, #docs/#sections/#props/features of A and B)',
+                           'new writers from two different document sets (1 pair quick, 4 pairs thorough). '
+                           '(2) versions: the SAME documents exported, edited in place with ids kept (22 edit kinds: '
+                           'every attribute, values, add/remove/move/rename/replace of Properties and Sections, names '
+                           'swapped, documents added to / dropped from / reordered in the list), exported again (2 '
+                           'versions of 2 document sets quick, 3 versions of 7 sets thorough); per (document set, edit '
+                           'kind): every order of two versions on one RDFReader (2 of the 4 entry point combinations, '
+                           'alternating), on a new RDFReader per call, and constructor-with-file + import; histories '
+                           'of up to 3 calls over versions, an unrelated source and to_odml on one RDFReader (empty / '
+                           'created with a version) and one ODMLReader, the (document set, edit kind) drawn in '
+                           'shuffled rounds.  Serialisations, entry points and sub-classing mode of the export rotate; '
+                           'on every third history the caller edits the returned documents between calls.  Every call '
+                           'must return exactly the documents of the graph it read; '
+                           'class = (reader, start, calls in order, document set + edit kinds or A/B features)',
                       exhaustive=False)
     shutil.rmtree(RHIST_DIR, ignore_errors=True)
     os.makedirs(RHIST_DIR)
     lim = _Limited(col, per_cls=3)
+    quick = tier == 'quick'
     try:
         sets = history_doc_sets(tier, seed)
         by = dict(sets)
         pairs = [('hist-same-template', 'hist-basic')]
-        if tier != 'quick':
+        if not quick:
             pairs += [('gen-a', 'gen-list2'), ('repositories', 'mapped-section-types'), ('gen-list3', 'uncertainties')]
         n = 0
+        plain = {}
         for pi, (la, lb) in enumerate(pairs):
             sources = {}
-            ok = True
             for name, lab in (('A', la), ('B', lb)):
-                docs = by[lab]
-                src = {'label': lab, 'snaps': {d._id: flat(d) for d in docs}, 'text': {}, 'file': {}}
-                for fmt in FORMATS:
-                    st, text = h.call(lambda: RDFWriter(list(docs)).get_rdf_str(fmt))
-                    if st == 'exc':
-                        ok = False        # export failures are judged by the other parts
-                        break
-                    src['text'][fmt] = text
-                    path = os.path.join(RHIST_DIR, 'p%d%s%s' % (pi, name, EXT[fmt]))
-                    with open(path, 'w', encoding='utf-8') as f:
-                        f.write(text)
-                    src['file'][fmt] = path
-                sources[name] = src
-            if not ok:
+                sources[name] = plain[lab] = _export_source(lab, by[lab], 'p%d%s' % (pi, name))
+            if sources['A'] is None or sources['B'] is None:
                 continue
             feats = features_of(by[la]) + features_of(by[lb])
             loads = [(kind, name) for kind in ('from_string', 'from_file') for name in ('A', 'B')]
@@ -1156,7 +1563,83 @@ def run_reader_history(tier, seed):
                             start = (init, FORMATS[n % len(FORMATS)]) if init else None
                             col.case(cls_key=(reader_kind, init, seq) + feats,
                                      sample='%s(%s)/%s' % (reader_kind, init or '', '>'.join('-'.join(op) for op in seq)))
-                            _reader_history(lim, reader_kind, sources, start, hist, tier, seed)
+                            _reader_history(lim, reader_kind, sources, start, hist, tier, seed, touch=(n % 3 == 0))
+
+        # ---- (2) versions of the same documents
+        modes = (dict(), dict(rdf_subclassing=False), dict(custom_subclasses=dict(CUSTOM_MAP)))
+        all_kinds = [k for k, _f in DOC_EDITS + LIST_EDITS]
+        if quick:
+            plan = [('hist-basic', 'hist-same-template', all_kinds),
+                    ('hist-same-template', 'hist-basic', [k for k, _f in LIST_EDITS] + ['values-changed'])]
+            nver = 2
+        else:
+            fam = ['hist-basic', 'hist-same-template', 'mapped-section-types', 'repositories', 'gen-a', 'gen-list2',
+                   'numeric-and-text']
+            plan = [(lab, fam[(j + 1) % len(fam)], all_kinds) for j, lab in enumerate(fam)]
+            nver = 3
+        variants = []                     # (family label, edit kinds, {source name: source})
+        for fi, (lab, other, kinds) in enumerate(plan):
+            if other not in plain:
+                plain[other] = _export_source(other, by[other], 'u%d' % fi)
+            if plain[other] is None:
+                continue
+            for ki, kind in enumerate(kinds):
+                chain = [kind] + [all_kinds[(all_kinds.index(kind) + 7 * j) % len(all_kinds)] for j in range(1, nver - 1)]
+                vs = _version_sources(lab, by[lab], chain, 'v%d_%d' % (fi, ki), modes[(fi + ki) % 3])
+                if vs is None:
+                    continue
+                srcs = {'V%d' % j: s for j, s in enumerate(vs)}
+                srcs['U'] = plain[other]
+                variants.append((lab, tuple(chain), srcs))
+        vnames = ['V%d' % j for j in range(nver)]
+
+        def run(reader_kind, init, seq, variant):
+            lab, chain, srcs = variant
+            seq = tuple((('from_string', 'from_file')[(n + i) % 2], op[1]) if op[0] == 'load' else op
+                        for i, op in enumerate(seq))
+            hist = tuple(op if op[0] == 'to_odml' else op + (FORMATS[(n + i) % len(FORMATS)],)
+                         for i, op in enumerate(seq))
+            start = (init, FORMATS[n % len(FORMATS)]) if init else None
+            col.case(cls_key=(reader_kind, init, seq, lab, chain),
+                     sample='%s(%s)/%s/%s/%s' % (reader_kind, init or '', '>'.join('-'.join(op) for op in seq),
+                                                lab, '+'.join(chain)))
+            _reader_history(lim, reader_kind, srcs, start, hist, tier, seed, touch=(n % 3 == 0))
+
+        # every variant: every order of two versions x entry points; one reader, a reader per call, constructor
+        # with a file of one version + import of another (half of the entry point combinations per variant,
+        # alternating from variant to variant; every order of two versions always)
+        entry = ('from_string', 'from_file')
+        for vi, variant in enumerate(variants):
+            for pi, (va, vb) in enumerate(itertools.permutations(vnames, 2)):
+                for e1, e2 in itertools.product((0, 1), repeat=2):
+                    if (e1 + e2 + vi + pi) % 2:
+                        continue
+                    n += 1
+                    run('RDFReader', None, ((entry[e1], va), (entry[e2], vb)), variant)
+                e = (vi + pi) % 2
+                n += 1
+                run('RDFReader-per-call', None, ((entry[e], va), (entry[e], vb)), variant)
+                n += 1
+                run('RDFReader', va, ((entry[1 - e], vb),), variant)
+        # longer and interleaved histories, the variant drawn in shuffled rounds; entry points enumerated for the
+        # histories of an empty RDFReader / an ODMLReader (thorough), rotating otherwise
+        rnd = random.Random(seed + 31)
+        pool = []
+
+        def draw():
+            if not pool:
+                pool.extend(variants)
+                rnd.shuffle(pool)
+            return pool.pop()
+
+        long_plans = [('RDFReader', None, (3,)), ('ODMLReader', None, (2, 3))]
+        long_plans += [('RDFReader', init, (2,) if quick else (2, 3)) for init in vnames]
+        if variants:
+            for reader_kind, init, lengths in long_plans:
+                for seq in _version_seqs(vnames, reader_kind == 'RDFReader', lengths, init,
+                                         entries=(not quick and init is None)):
+                    n += 1
+                    run(reader_kind, init, seq, draw())
     finally:
         shutil.rmtree(RHIST_DIR, ignore_errors=True)
     return col.result()
